@@ -19,7 +19,7 @@ func init() {
 		ID: "C33", Level: "other", Patterns: []string{"./internal/sleep"},
 		Technique: "finite truth table over (sign of elapsed, remainder class) + linear forms of time expressions over go/ssa",
 		Explain: "Decides three structural clauses of sleep.WindowCalculator. R1: the cycle index derived from t.Sub(epoch) is a floor, not Go's truncating quotient: the method mapping an instant to its cycle start must branch on the sign of the elapsed time / its remainder, and where the index has the form q or q-1 the choice is evaluated for every (sign, remainder) class (q-1 required for negative non-multiples, q required from the epoch on). R2: the per-agent offset is 0 or a value reduced modulo (CycleLength - WindowLength), and the constructor replaces a WindowLength above CycleLength by a fraction of it before the configuration is stored. R3: NextWindow returns cycleStart(now)+offset or exactly one CycleLength later, the later one exactly when now is after the first window's end, and end = start + WindowLength. " +
-			"Not decided: the tolerance clause of IsInWindow, and the arithmetic statement over all instants beyond these clauses.",
+			"R4: the in-window predicate compares the instant with bounds of the rolled-over window (NextWindow, or both cycle candidates), never with the current cycle's window alone. Not decided: the trailing-tolerance part of the IsInWindow clause, and the arithmetic statement over all instants beyond these clauses.",
 		Run: runC33,
 		SelfTests: []SelfTest{
 			{Name: "truncating division (floor adjustment removed)", ExpectRule: "C33.R1", Edits: []Edit{
@@ -92,6 +92,19 @@ func init() {
 			{Name: "rewrite: next cycle through cycleStart(now + CycleLength)", Edits: []Edit{
 				{File: f, Old: "\tif now.After(windowEnd) {\n\t\tcycleStart = cycleStart.Add(w.cfg.CycleLength)\n", New: "\tif now.After(windowEnd) {\n\t\tcycleStart = w.cycleStart(now.Add(w.cfg.CycleLength))\n"},
 			}},
+			// round 5: the in-window predicate
+			{Name: "IsInWindow decided from the current cycle's window only", ExpectRule: "C33.R4", ExpectKey: "IsInWindow", Edits: []Edit{
+				{File: f, Old: "\tinfo := w.GetWindowInfo(agentID, t)\n\treturn info.CurrentlyActive\n", New: "\tstart := w.cycleStart(t).Add(w.windowOffset(agentID))\n\tend := start.Add(w.cfg.WindowLength)\n\tif t.After(end) {\n\t\treturn false\n\t}\n\treturn !t.Before(start.Add(-w.cfg.ClockTolerance)) && t.Before(end.Add(w.cfg.ClockTolerance))\n"},
+			}},
+			{Name: "CurrentlyActive computed against the current cycle's window", ExpectRule: "C33.R4", ExpectKey: "CurrentlyActive", Edits: []Edit{
+				{File: f, Old: "\tcurrentlyActive := !now.Before(safeStart) && now.Before(safeEnd)\n", New: "\tcur := w.cycleStart(now).Add(w.windowOffset(agentID))\n\tcurrentlyActive := !now.Before(cur.Add(-w.cfg.ClockTolerance)) && now.Before(cur.Add(w.cfg.WindowLength+w.cfg.ClockTolerance))\n"},
+			}},
+			{Name: "rewrite: IsInWindow evaluated directly on NextWindow", Edits: []Edit{
+				{File: f, Old: "\tinfo := w.GetWindowInfo(agentID, t)\n\treturn info.CurrentlyActive\n", New: "\tstart, end := w.NextWindow(agentID, t)\n\ttol := w.cfg.ClockTolerance\n\treturn !t.Before(start.Add(-tol)) && t.Before(end.Add(tol))\n"},
+			}},
+			{Name: "rewrite: IsInWindow tests the current and the following cycle's window", Edits: []Edit{
+				{File: f, Old: "\tinfo := w.GetWindowInfo(agentID, t)\n\treturn info.CurrentlyActive\n", New: "\toff, tol := w.windowOffset(agentID), w.cfg.ClockTolerance\n\ts0 := w.cycleStart(t).Add(off)\n\ts1 := s0.Add(w.cfg.CycleLength)\n\treturn (!t.Before(s0.Add(-tol)) && !t.After(s0.Add(w.cfg.WindowLength))) || (!t.Before(s1.Add(-tol)) && t.Before(s1.Add(w.cfg.WindowLength+tol)))\n"},
+			}},
 			// round 3: refactoring classes
 			{Name: "rewrite: window built by a shared helper, early return while the window is open", Edits: []Edit{
 				{File: f, Old: "\twindowStart := cycleStart.Add(offset)\n\twindowEnd := windowStart.Add(w.cfg.WindowLength)\n\n\t// If we're past this cycle's window, use next cycle\n\tif now.After(windowEnd) {\n\t\tcycleStart = cycleStart.Add(w.cfg.CycleLength)\n\t\twindowStart = cycleStart.Add(offset)\n\t\twindowEnd = windowStart.Add(w.cfg.WindowLength)\n\t}\n\n\treturn windowStart, windowEnd\n}\n\n// GetWindowInfo", New: "\twindowStart, windowEnd := w.windowInCycle(cycleStart, offset)\n\tif !now.After(windowEnd) {\n\t\treturn windowStart, windowEnd\n\t}\n\treturn w.windowInCycle(cycleStart.Add(w.cfg.CycleLength), offset)\n}\n\nfunc (w *WindowCalculator) windowInCycle(base time.Time, offset time.Duration) (start, end time.Time) {\n\tstart = base.Add(offset)\n\tend = start.Add(w.cfg.WindowLength)\n\treturn start, end\n}\n\n// GetWindowInfo"},
@@ -138,6 +151,8 @@ type c33ctx struct {
 	r                  *kit.Report
 	wc                 *types.Named
 	cycleF, windowF    *types.Var
+	tolF               *types.Var    // WindowConfig.ClockTolerance (optional)
+	next               *ssa.Function // NextWindow
 	epochF, cfgF       *types.Var
 	cycleStart, offset *ssa.Function
 }
@@ -202,6 +217,9 @@ func runC33(p *kit.Program, r *kit.Report) {
 	cx.ruleFloor()
 	cx.ruleFits()
 	cx.ruleNext(next)
+	cx.next = next
+	cx.tolF = p.Field("internal/sleep", "WindowConfig", "ClockTolerance")
+	cx.ruleActive()
 }
 
 // ---------------- R1
@@ -876,6 +894,9 @@ func (cx *c33ctx) dur(v ssa.Value, scale int, out map[string]int, depth int, env
 	case kit.IsLoadOfField(v, cx.windowF):
 		out["W"] += scale
 		return true
+	case cx.tolF != nil && kit.IsLoadOfField(v, cx.tolF):
+		out["T"] += scale
+		return true
 	}
 	switch x := v.(type) {
 	case *ssa.Call:
@@ -955,7 +976,43 @@ func (cx *c33ctx) variants(v ssa.Value, now ssa.Value, env *c33env, depth int) (
 		return out, true
 	case *ssa.Extract:
 		if call, ok := x.Tuple.(*ssa.Call); ok {
+			// result of the roll-over function for the same instant: kept symbolic
+			if cal := kit.CalleeOf(call); cx.next != nil && cal.Static == cx.next && len(call.Call.Args) == 3 && x.Index < 2 {
+				if arg, _ := env.resolve(call.Call.Args[2]); arg == now {
+					term := "NWs"
+					if x.Index == 1 {
+						term = "NWe"
+					}
+					return []c33var{{l: c33lin{base: now, terms: map[string]int{term: 1}}, choice: map[*ssa.BasicBlock]int{}}}, true
+				}
+				return nil, false
+			}
 			return cx.inline(call, x.Index, now, env, depth)
+		}
+	case *ssa.UnOp:
+		// field of a local struct (info.SafeStart): the value stored into it
+		if x.Op == token.MUL {
+			if fa, ok := x.X.(*ssa.FieldAddr); ok {
+				if al, ok := fa.X.(*ssa.Alloc); ok && al.Referrers() != nil {
+					var val ssa.Value
+					n := 0
+					for _, rf := range *al.Referrers() {
+						fa2, ok := rf.(*ssa.FieldAddr)
+						if !ok || fa2.Field != fa.Field || fa2.Referrers() == nil {
+							continue
+						}
+						for _, rr := range *fa2.Referrers() {
+							if st, ok := rr.(*ssa.Store); ok && st.Addr == ssa.Value(fa2) {
+								val = st.Val
+								n++
+							}
+						}
+					}
+					if n == 1 {
+						return cx.variants(val, now, env, depth+1)
+					}
+				}
+			}
 		}
 	case *ssa.Call:
 		if cal := kit.CalleeOf(x); cal.Static != nil && cal.Static == cx.cycleStart && len(x.Call.Args) == 2 {
@@ -1166,4 +1223,169 @@ func (cx *c33ctx) ruleNext(fn *ssa.Function) {
 	r.Count("next_window_candidates", nVariants)
 	r.Decide(haveBase && haveAdv, "C33.R3", key+" candidates", p.Pos(fn.Pos()), "the current cycle's window and the next cycle's window are both candidates",
 		"NextWindow does not have both the current and the following cycle's window as candidates: after the current window has ended it keeps returning it (or it always skips ahead)")
+}
+
+// ---------------- R4: the in-window predicate
+
+// c33atoms collects, from a boolean value, the time values the instant is compared with
+// (Before/After), looking through !, &&/|| (phis), and calls of WindowCalculator predicates on the
+// same instant. ok=false when the value delegates to something that is not analysed here.
+func (cx *c33ctx) atoms(v ssa.Value, now ssa.Value, fn *ssa.Function, depth int, out *[]c33cmp) {
+	if depth > 8 || v == nil {
+		return
+	}
+	switch x := v.(type) {
+	case *ssa.UnOp:
+		if x.Op == token.NOT {
+			cx.atoms(x.X, now, fn, depth+1, out)
+		}
+	case *ssa.Phi:
+		for i, e := range x.Edges {
+			cx.atoms(e, now, fn, depth+1, out)
+			// the branch conditions that select the edge belong to the predicate as well
+			for _, g := range kit.EdgeGuards(x.Block().Preds[i], x.Block()) {
+				if _, isPhi := g.Cond.(*ssa.Phi); !isPhi {
+					cx.atoms(g.Cond, now, fn, depth+1, out)
+				}
+			}
+		}
+	case *ssa.BinOp:
+		if x.Op == token.EQL || x.Op == token.NEQ || x.Op == token.AND || x.Op == token.OR {
+			cx.atoms(x.X, now, fn, depth+1, out)
+			cx.atoms(x.Y, now, fn, depth+1, out)
+		}
+	case *ssa.Call:
+		for _, name := range []string{"Before", "After"} {
+			if c := c33TimeCall(x, name); c != nil {
+				recv, arg := c.Call.Args[0], c.Call.Args[1]
+				switch {
+				case recv == now:
+					*out = append(*out, c33cmp{arg, now, fn, c})
+				case arg == now:
+					*out = append(*out, c33cmp{recv, now, fn, c})
+				}
+				return
+			}
+		}
+		// a predicate method of the calculator on the same instant (IsInWindow from GetWindowInfo)
+		cal := kit.CalleeOf(x)
+		if h := cal.Static; h != nil && h.Blocks != nil && h.Signature.Recv() != nil && c33RecvNamed(h, cx.wc) && h.Signature.Results().Len() == 1 {
+			for i, a := range x.Call.Args {
+				if a == now && i < len(h.Params) {
+					for _, ret := range kit.Returns(h) {
+						if ret.Block() == h.Recover {
+							continue
+						}
+						cx.atoms(kit.ReturnResult(ret, 0), h.Params[i], h, depth+1, out)
+						for _, g := range kit.GuardsOf(ret) {
+							cx.atoms(g.Cond, h.Params[i], h, depth+1, out)
+						}
+					}
+				}
+			}
+		}
+	}
+}
+
+type c33cmp struct {
+	x    ssa.Value // the time value compared with the instant
+	now  ssa.Value
+	fn   *ssa.Function
+	call *ssa.Call
+}
+
+func c33RecvNamed(fn *ssa.Function, n *types.Named) bool {
+	rt := fn.Signature.Recv().Type()
+	if pt, ok := rt.(*types.Pointer); ok {
+		rt = pt.Elem()
+	}
+	return types.Identical(rt, n)
+}
+
+// ruleActive: wherever "is the agent listening at instant t" is decided (the CurrentlyActive
+// field of a WindowInfo, a bool-returning method of the calculator taking the instant), the bounds
+// t is compared with must come from the rolled-over window: results of NextWindow for the same
+// instant, or cycleStart-based bounds that include the following cycle's candidate. Bounds built
+// from the current cycle alone miss the tolerance lead-in of the next window that reaches back
+// across the cycle boundary (offset < tolerance).
+func (cx *c33ctx) ruleActive() {
+	p, r := cx.p, cx.r
+	r.Rule("C33.R4", "the in-window predicate (WindowInfo.CurrentlyActive, bool methods of the calculator on an instant) compares the instant with bounds of the rolled-over window (NextWindow of the same instant, or cycleStart-based bounds that include the next cycle's candidate), never with the current cycle's window alone")
+	type root struct {
+		v   ssa.Value
+		fn  *ssa.Function
+		gs  []kit.Guard
+		key string
+		pos token.Pos
+	}
+	var roots []root
+	timeParam := func(fn *ssa.Function) ssa.Value {
+		var tp ssa.Value
+		for _, prm := range fn.Params {
+			if c33IsTime(prm.Type(), "Time") {
+				tp = prm
+			}
+		}
+		return tp
+	}
+	if af := p.Field("internal/sleep", "WindowInfo", "CurrentlyActive"); af != nil {
+		n := map[string]int{}
+		for _, acc := range p.FieldAccessesOfKind(af, kit.FieldStore) {
+			fname := kit.FuncName(acc.Fn)
+			n[fname]++
+			roots = append(roots, root{acc.Val, acc.Fn, kit.GuardsOf(acc.Instr), fmt.Sprintf("%s CurrentlyActive #%d", fname, n[fname]), acc.Instr.Pos()})
+		}
+	}
+	for _, m := range p.Methods("internal/sleep", "WindowCalculator") {
+		sig := m.Signature
+		if sig.Results().Len() != 1 || timeParam(m) == nil {
+			continue
+		}
+		if b, ok := sig.Results().At(0).Type().Underlying().(*types.Basic); !ok || b.Kind() != types.Bool {
+			continue
+		}
+		for i, ret := range kit.Returns(m) {
+			if ret.Block() == m.Recover {
+				continue
+			}
+			roots = append(roots, root{kit.ReturnResult(ret, 0), m, kit.GuardsOf(ret), fmt.Sprintf("%s result #%d", kit.FuncName(m), i+1), ret.Pos()})
+		}
+	}
+	r.Count("in_window_predicate_sites", len(roots))
+	for _, rt := range roots {
+		now := timeParam(rt.fn)
+		if now == nil {
+			continue
+		}
+		var cmps []c33cmp
+		cx.atoms(rt.v, now, rt.fn, 0, &cmps)
+		for _, g := range rt.gs {
+			cx.atoms(g.Cond, now, rt.fn, 0, &cmps)
+		}
+		// classify the bounds
+		nKnown, rolled := 0, false
+		example := ""
+		for _, c := range cmps {
+			vs, ok := cx.variants(c.x, c.now, nil, 0)
+			if !ok {
+				// not expressible (delegation, other data): nothing is claimed about it
+				rolled = true
+				continue
+			}
+			for _, one := range vs {
+				nKnown++
+				if one.l.terms["NWs"] != 0 || one.l.terms["NWe"] != 0 || one.l.terms["C"] >= 1 {
+					rolled = true
+				} else if example == "" {
+					example = one.l.String() + " at " + p.Pos(c.call.Pos())
+				}
+			}
+		}
+		if nKnown == 0 {
+			r.OK("C33.R4", rt.key, p.Pos(rt.pos), "no window bound is compared here (delegated)")
+			continue
+		}
+		r.Decide(rolled, "C33.R4", rt.key, p.Pos(rt.pos), "the instant is compared with bounds of the rolled-over window",
+			"the instant is only compared with bounds of the current cycle's window ("+example+"): the tolerance lead-in of the next cycle's window that reaches back across the cycle boundary (offset < ClockTolerance) is reported as not in-window while SafeStart/TimeUntil of the same instant say it has started")
+	}
 }
